@@ -158,6 +158,13 @@ func (x *Exec) step(f *frame, in ssa.Instruction) {
 		return
 	case *ssa.Range:
 		x.vals[in] = Val{T: x.val(in.X).T}
+		if mt, ok := in.X.Type().Underlying().(*types.Map); ok {
+			// no key produced yet
+			ks := x.X.sortOf(mt.Key())
+			vcn, vsort := "Ghost_vis_"+sanitize(ks), "(Array "+ks+" Bool)"
+			x.comp(vcn, vsort)
+			st.heap[vcn] = "((as const " + vsort + ") false)"
+		}
 		return
 	case *ssa.Next:
 		x.rangeNext(f, in)
@@ -922,13 +929,30 @@ func (x *Exec) rangeNext(f *frame, in *ssa.Next) {
 			hv := x.heapGet(st, val, vsrt)
 			tk, tv := tu.At(1).Type(), tu.At(2).Type()
 			var facts []Term
-			if b, isb := tk.(*types.Basic); !(isb && b.Kind() == types.Invalid) {
-				facts = append(facts, sx("select", sx("select", h, m), vs[1].T))
-				if b2, isb2 := tv.(*types.Basic); !(isb2 && b2.Kind() == types.Invalid) {
-					facts = append(facts, eq(vs[2].T, sx("select", sx("select", hv, m), vs[1].T)))
-				}
+			// the key of this iteration (a ghost when the loop does not bind it)
+			key := vs[1].T
+			if b, isb := tk.(*types.Basic); isb && b.Kind() == types.Invalid {
+				key = x.havocValue(st, mt.Key(), "rngkey")
+			}
+			facts = append(facts, sx("select", sx("select", h, m), key))
+			if b2, isb2 := tv.(*types.Basic); !(isb2 && b2.Kind() == types.Invalid) {
+				facts = append(facts, eq(vs[2].T, sx("select", sx("select", hv, m), key)))
 			}
 			x.assume(st, implies(ok, and(append(facts, not(eq(m, "0")))...)))
+			// visited(k): the keys this range loop has produced so far. Each key is produced at
+			// most once; when the loop ends normally and its body never adds to a map of this
+			// type, every key (still) in the map has been produced.
+			ks := x.X.sortOf(mt.Key())
+			vcn, vsort := "Ghost_vis_"+sanitize(ks), "(Array "+ks+" Bool)"
+			x.comp(vcn, vsort)
+			vis := x.heapGet(st, vcn, vsort)
+			x.assume(st, implies(ok, not(sx("select", vis, key))))
+			st.heap[vcn] = x.define(x.fresh(vcn), vsort, ite(ok, sx("store", vis, key, "true"), vis))
+			if li := x.loopOfInstr(in); li != nil && !x.loopAddsToMap(li, mt) {
+				kq := x.fresh("vk")
+				x.assume(st, implies(not(ok), "(forall (("+kq+" "+ks+")) (! (=> (select (select "+h+" "+m+") "+kq+") (select "+vis+" "+kq+")) :pattern ((select "+vis+" "+kq+")) :pattern ((select (select "+h+" "+m+") "+kq+"))))"))
+				x.assumed["range over a map produces every key that is in the map when the loop ends (Go spec; used only when the loop body adds nothing to maps of that type)"] = true
+			}
 		}
 	}
 	x.vals[in] = Val{Tu: vs}
@@ -1042,6 +1066,56 @@ func bodyBlocks(fn *ssa.Function) bool {
 				if in.Blocking {
 					return true
 				}
+			case *ssa.UnOp:
+				if in.Op == token.ARROW {
+					return true
+				}
+			}
+		}
+	}
+	return false
+}
+
+// loopOfInstr: the innermost natural loop containing the instruction.
+func (x *Exec) loopOfInstr(in ssa.Instruction) *loopInfo {
+	var best *loopInfo
+	for _, li := range x.loops {
+		if li.body[in.Block()] || li.head == in.Block() {
+			if best == nil || len(li.body) < len(best.body) {
+				best = li
+			}
+		}
+	}
+	return best
+}
+
+// loopAddsToMap: may the loop body add an entry to some map of this type (a map
+// store, a call that may change the key set other than the builtin delete, or a
+// yield point)? Syntactic over-approximation.
+func (x *Exec) loopAddsToMap(li *loopInfo, mt *types.Map) bool {
+	has, _, _, _, _ := x.mapComps(mt)
+	for b := range li.body {
+		for _, in := range b.Instrs {
+			switch in := in.(type) {
+			case *ssa.MapUpdate:
+				if mt2, ok := in.Map.Type().Underlying().(*types.Map); !ok || types.Identical(mt2, mt) {
+					return true
+				}
+			case ssa.CallInstruction:
+				if bi, ok := in.Common().Value.(*ssa.Builtin); ok && bi.Name() == "delete" {
+					continue
+				}
+				cm, all := x.callModifies(in)
+				if all {
+					return true
+				}
+				for _, c := range cm {
+					if c == has {
+						return true
+					}
+				}
+			case *ssa.Select, *ssa.Send:
+				return true
 			case *ssa.UnOp:
 				if in.Op == token.ARROW {
 					return true
